@@ -20,6 +20,11 @@ THEMES = {
           "multi-byte identifiers and strings, empty containers, single-element tuples, trailing commas); "
           "(d) a boundary size (empty list, one element, the last element, the first line, the last line without a "
           "newline)."),
+    '7': ("Read the property sentence by sentence and choose the clause that ordinary tests are LEAST likely to exercise - a secondary "
+          "API or entry point that the text names only once, a parenthetical, an 'also when ...' case, an option value other than the "
+          "default, a node kind that appears in only one grammar rule - and break only that clause, leaving the main-line behaviour "
+          "exactly as it is. The change should sit in a function that only that clause reaches (or in a branch of a shared function "
+          "that only it takes)."),
 }
 
 
